@@ -6,6 +6,7 @@ import (
 	"math/rand"
 	"os"
 	"path/filepath"
+	"regexp"
 	"runtime"
 	"sort"
 	"strings"
@@ -106,6 +107,8 @@ func changedSets(rng *rand.Rand, n int, k int, singlesCap int) []lineSet {
 	return sets
 }
 
+var scanPosRe = regexp.MustCompile(`(^|: )\d+:\d+: `)
+
 func classifyErr(msg string) string {
 	switch {
 	case strings.Contains(msg, "nil pointer"):
@@ -117,6 +120,9 @@ func classifyErr(msg string) string {
 	case strings.HasPrefix(msg, "panic:"):
 		return "panic-other"
 	case strings.Contains(msg, "expected") || strings.Contains(msg, "missing") || strings.Contains(msg, "illegal"):
+		return "parse-error"
+	case scanPosRe.MatchString(msg):
+		// any other message of go/scanner / go/parser ("602:16: string literal not terminated", …)
 		return "parse-error"
 	}
 	return "error"
